@@ -13,7 +13,7 @@ Theorem step_frame c o : elems (fst (step c o)) = elems c /\ (pos c <= pos (fst 
 Proof.
   destruct o; simpl; try (split; [reflexivity|lia]);
     try (unfold and_move; match goal with |- context [if ?b then _ else _] => destruct b end; simpl; split; try reflexivity; lia);
-    try (destruct (at_off c 0); simpl; split; try reflexivity; lia).
+    try (destruct (at_off c 0) as [t|]; [try destruct (is_group t)|]; simpl; split; try reflexivity; lia).
 Qed.
 
 Lemma and_move_spec c b k : and_move c b k = (if b then moved c k else c, COk (CVBool b)).
@@ -68,16 +68,19 @@ Theorem error_leaves_cursor c o e : snd (step c o) = CErr e -> fst (step c o) = 
 Proof.
   destruct o; simpl; try discriminate;
     try (unfold and_move; match goal with |- context [if ?b then _ else _] => destruct b end; simpl; discriminate);
-    try (destruct (at_off c _); simpl; intros H; inversion H; auto).
+    try (destruct (at_off c _) as [t|]; [try destruct (is_group t)|]; simpl; intros H; inversion H; auto).
   - destruct (Nat.ltb (pos c) (len c)); intros H; inversion H; auto.
   - destruct (search c ps); simpl; intros H; inversion H; auto.
 Qed.
 
 (* children scanners are fresh: they start at position 0 over the children of the current token (modelled by the
    value CVScanner ts; a new cursor is mkcur ts 0) and the parent only moves by one *)
-Theorem pop_children_moves_one c t : at_off c 0 = Some t ->
+Theorem pop_children_moves_one c t : at_off c 0 = Some t -> is_group t = true ->
   step c OPopChildren = (moved c 1, COk (CVScanner (tok_children t))).
-Proof. simpl. intros ->. reflexivity. Qed.
+Proof. simpl. intros -> ->. reflexivity. Qed.
+(* the children of a word or literal cannot be popped: the call fails and the cursor stays *)
+Theorem pop_children_needs_group c t : at_off c 0 = Some t -> is_group t = false -> step c OPopChildren = (c, CErr ParseErr).
+Proof. simpl. intros -> ->. reflexivity. Qed.
 
 (* ---------- histories ---------- *)
 Lemma run_ops_frame ops : forall c, elems (snd (run_ops c ops)) = elems c /\ (pos c <= pos (snd (run_ops c ops)))%nat.
@@ -125,7 +128,7 @@ Theorem step_bounded c o : (pos (fst (step c o)) <= pos c + max_adv o)%nat.
 Proof.
   destruct o; simpl; try lia;
     try (unfold and_move; match goal with |- context [if ?b then _ else _] => destruct b end; simpl; lia);
-    try (destruct (at_off c 0); simpl; lia);
+    try (destruct (at_off c 0) as [t|]; [try destruct (is_group t)|]; simpl; lia);
     try (destruct (search c ps); simpl; lia).
 Qed.
 
@@ -144,7 +147,7 @@ Proof.
   assert (H1 : forall f, cur_test c f = true -> (pos c + 1 <= len c)%nat).
   { intros f H. unfold cur_test in H. destruct (at_off c 0) eqn:E0; [|discriminate]. apply Hat in E0. lia. }
   destruct o; simpl; try lia;
-    try (destruct (at_off c 0) eqn:E0; simpl; [apply Hat in E0; lia|lia]).
+    try (destruct (at_off c 0) as [t|] eqn:E0; [try destruct (is_group t)|]; simpl; try (apply Hat in E0); lia).
   - exfalso. apply (Hm k). reflexivity.
   - rewrite and_move_spec. simpl. destruct (search c ps) eqn:E; simpl; [apply search_in_range in E; lia|lia].
   - rewrite and_move_spec. simpl. match goal with |- context [if ?b then _ else _] => destruct b eqn:E end; simpl; [apply H1 in E; lia|lia].
